@@ -603,7 +603,122 @@ def u_read_into(c):
                                                                                    s._read_buffer_size == (SInt(z3.Length(rv.t)) if isinstance(rv, SStr) else len(rv))))
 
 
+DELIMS = [b"\n", b"\r\n", b"\r\n\r\n", b"abc", b"--boundary--"]
+ARRIVALS = ["all-at-once", "1-then-rest", "2-then-rest", "1-1-then-rest", "one-short-of-the-delimiter-then-rest", "cut-inside-the-first-delimiter", "cut-right-after-the-first-delimiter",
+            "3-3-then-rest", "byte-by-byte", "1-then-byte-by-byte"]
+
+
+@unit("C11", "delimiter-reads.arrival-patterns", [(M, "BaseIOStream.read_until"), (M, "BaseIOStream.read_until_regex"), (M, "BaseIOStream._find_read_pos"), (M, "BaseIOStream._read_to_buffer_loop"),
+                                                   (M, "BaseIOStream._read_from_buffer")],
+      bounded="finite case analysis: 5 delimiters (1-12 bytes) x literal/regex x 4 lengths of text before the first delimiter x 10 arrival patterns x (nothing | first piece) already buffered "
+              "x 3 read_chunk_sizes, through the real stream over a scripted transport")
+def u_arrivals(c):
+    """a delimiter read returns everything up to and including the FIRST occurrence, whatever the sizes of the pieces the bytes arrive in (tiny first pieces, cuts inside the
+    delimiter), and the following reads get exactly the rest"""
+    import re as _re
+    from pyvc import core
+    core.PATH_CAP = max(core.PATH_CAP, 6000)      # a finite product of cases (2400), each a few ms
+    delim = c.choose("delimiter", DELIMS)
+    kind = c.choose("kind", ["until", "regex"])
+    head = c.choose("bytes-before-the-first-delimiter", [0, 1, 2, 7])
+    arrival = c.choose("arrival", ARRIVALS)
+    pre = c.choose("already-buffered", [0, 1])
+    chunk = c.choose("read_chunk_size", [4096, 1, 3])
+    text = (b"xyzwvut"[:head]) + delim + b"BODY" + delim + b"tail"
+    d = len(delim)
+    first_end = head + d
+    cuts = {"all-at-once": [], "1-then-rest": [1], "2-then-rest": [2], "1-1-then-rest": [1, 2], "one-short-of-the-delimiter-then-rest": [max(d - 1, 1)],
+            "cut-inside-the-first-delimiter": [head + max(d // 2, 1)] if d > 1 else [head], "cut-right-after-the-first-delimiter": [first_end],
+            "3-3-then-rest": [3, 6], "byte-by-byte": list(range(1, len(text))), "1-then-byte-by-byte": list(range(1, len(text)))}[arrival]
+    cuts = sorted(set(x for x in cuts if 0 < x < len(text)))
+    pieces = [text[a:b] for a, b in zip([0] + cuts, cuts + [len(text)])]
+    req = ("until", delim, None) if kind == "until" else ("regex", _re.escape(delim), None)
+    prog = [req, req, ("bytes", 4)]
+    results, closed = run_reads(pieces, prog, chunk, min(pre, len(pieces)))
+    c.cover("arrivals")
+    got = [r for (_q, r) in results]
+    c.values = {"stream": text, "pieces": [len(x) for x in pieces], "results": [x if isinstance(x, str) else bytes(x) for x in got]}
+    c.oblige("post/the-read-ends-with-the-first-occurrence-of-the-delimiter", len(got) >= 1 and got[0] == text[:first_end])
+    c.oblige("post/the-next-delimiter-read-continues-right-after-it", len(got) >= 2 and got[1] == b"BODY" + delim)
+    c.oblige("post/and-the-rest-follows-nothing-lost-or-repeated", len(got) == 3 and got[2] == b"tail")
+
+
 # ---------------------------------------------------------------------------------- bounded stand-in
+def run_reads(pieces, prog, chunk, pre):
+    """the real stream (FakeTransportStream: BaseIOStream over a scripted transport) fed `pieces` (`pre` of them before the first request, the rest one per
+    event-loop round, then EOF) and asked the read requests of `prog` one after the other; returns ([(request, result bytes | outcome name)], closed)"""
+    import asyncio
+    import tornado.iostream as IO
+    from pyvc.standin.fakestream import FakeTransportStream, EOF
+    from pyvc.standin import wsharness as H
+
+    async def main():
+        s = FakeTransportStream(read_chunk_size=chunk)
+        results = []
+        feed_i = [0]
+
+        def feed_more():
+            if feed_i[0] < len(pieces):
+                s.feed(pieces[feed_i[0]])
+                feed_i[0] += 1
+                return True
+            if feed_i[0] == len(pieces):
+                s.feed(EOF)
+                feed_i[0] += 1
+                return True
+            return False
+        for _ in range(pre):
+            feed_more()
+        for req in prog:
+            if s.closed() and not s._read_buffer_size:
+                pass
+            try:
+                if req[0] in ("bytes", "partial"):
+                    fut = s.read_bytes(req[1], partial=(req[0] == "partial"))
+                elif req[0] in ("into", "into-partial"):
+                    buf = bytearray(req[1])
+                    fut = s.read_into(buf, partial=(req[0] == "into-partial"))
+                elif req[0] in ("until", "until-max"):
+                    fut = s.read_until(req[1], max_bytes=req[2])
+                elif req[0] in ("regex", "regex-max"):
+                    fut = s.read_until_regex(req[1], max_bytes=req[2])
+                else:
+                    fut = s.read_until_close()
+            except IO.StreamClosedError:
+                results.append((req, "StreamClosedError"))
+                break
+            except IO.UnsatisfiableReadError:
+                results.append((req, "Unsatisfiable"))
+                break
+            fut = asyncio.ensure_future(fut) if not isinstance(fut, asyncio.Future) else fut
+            for _ in range(20000):
+                s.pump()
+                await asyncio.sleep(0)
+                if fut.done():
+                    break
+                if not feed_more() and s.closed():
+                    await asyncio.sleep(0)
+                    await asyncio.sleep(0)
+                    break
+                s.pump()
+            if not fut.done():
+                await asyncio.sleep(0)
+            if not fut.done():
+                results.append((req, "pending"))
+                fut.cancel()
+                break
+            if fut.exception() is not None:
+                results.append((req, type(fut.exception()).__name__))
+                break
+            r = fut.result()
+            if req[0].startswith("into"):
+                r = bytes(buf[:r])
+            results.append((req, r))
+        return results, s.closed()
+    return H.run(main)
+
+
+
 def standin(tier, seed):
     import asyncio
     import random
@@ -649,72 +764,9 @@ def standin(tier, seed):
                 prog.append(("close",))
         evals += 1
 
-        async def main():
-            s = FakeTransportStream(read_chunk_size=chunk)
-            results = []
-            feed_i = [0]
-
-            def feed_more():
-                if feed_i[0] < len(pieces):
-                    s.feed(pieces[feed_i[0]])
-                    feed_i[0] += 1
-                    return True
-                if feed_i[0] == len(pieces):
-                    s.feed(EOF)
-                    feed_i[0] += 1
-                    return True
-                return False
-            pre = rng.randint(0, len(pieces))          # some pieces have arrived before the first request
-            for _ in range(pre):
-                feed_more()
-            for req in prog:
-                if s.closed() and not s._read_buffer_size:
-                    pass
-                try:
-                    if req[0] in ("bytes", "partial"):
-                        fut = s.read_bytes(req[1], partial=(req[0] == "partial"))
-                    elif req[0] in ("into", "into-partial"):
-                        buf = bytearray(req[1])
-                        fut = s.read_into(buf, partial=(req[0] == "into-partial"))
-                    elif req[0] in ("until", "until-max"):
-                        fut = s.read_until(req[1], max_bytes=req[2])
-                    elif req[0] in ("regex", "regex-max"):
-                        fut = s.read_until_regex(req[1], max_bytes=req[2])
-                    else:
-                        fut = s.read_until_close()
-                except IO.StreamClosedError:
-                    results.append((req, "StreamClosedError"))
-                    break
-                except IO.UnsatisfiableReadError:
-                    results.append((req, "Unsatisfiable"))
-                    break
-                fut = asyncio.ensure_future(fut) if not isinstance(fut, asyncio.Future) else fut
-                for _ in range(20000):
-                    s.pump()
-                    await asyncio.sleep(0)
-                    if fut.done():
-                        break
-                    if not feed_more() and s.closed():
-                        await asyncio.sleep(0)
-                        await asyncio.sleep(0)
-                        break
-                    s.pump()
-                if not fut.done():
-                    await asyncio.sleep(0)
-                if not fut.done():
-                    results.append((req, "pending"))
-                    fut.cancel()
-                    break
-                if fut.exception() is not None:
-                    results.append((req, type(fut.exception()).__name__))
-                    break
-                r = fut.result()
-                if req[0].startswith("into"):
-                    r = bytes(buf[:r])
-                results.append((req, r))
-            return results, s.closed()
+        pre = rng.randint(0, len(pieces))          # some pieces have arrived before the first request
         try:
-            results, closed = H.run(main)
+            results, closed = run_reads(pieces, prog, chunk, pre)
         except Exception as e:
             fail("harness / stream raised %s: %s" % (type(e).__name__, e), stream=stream_bytes[:60], program=prog, pieces=[len(p) for p in pieces][:20], chunk=chunk)
             continue
